@@ -742,6 +742,13 @@ func runC10Damage(tier string, seed uint64, idx int) core.Result {
 			}
 			muts = append(muts, mutation{Kind: kind, Target: -1, File: f, Pos: pos, Len: ln, data: d})
 		}
+		// a torn write of the index file itself (it is written with plain write() at rollover, not synced):
+		// only a prefix of it made it to disk
+		for _, keep := range []int64{0, 1, 3, 4, st.Size() / 2, st.Size() - 1} {
+			if keep >= 0 && keep < st.Size() {
+				muts = append(muts, mutation{Kind: "index-torn", Target: -1, File: f, Pos: keep, Len: int(st.Size() - keep), Val: fmt.Sprintf("keep=%d", keep)})
+			}
+		}
 	}
 
 	work := filepath.Join(root, "W")
@@ -759,7 +766,9 @@ func runC10Damage(tier string, seed uint64, idx int) core.Result {
 			continue
 		}
 		orig := append([]byte{}, data...)
-		if mu.Kind == "payload-bitflip" {
+		if mu.Kind == "index-torn" {
+			data = data[:mu.Pos]
+		} else if mu.Kind == "payload-bitflip" {
 			var bit int
 			fmt.Sscan(mu.Val, &bit)
 			data[mu.Pos] ^= 1 << uint(bit)
